@@ -96,3 +96,13 @@ Proof.
   rewrite <- (acyclic_unique a (rg r) _ _ Hac Sp Sw i nd En).
   unfold pull. replace (Z.to_nat (Z.of_nat i + 1 - 1)) with i by lia. rewrite Hm. reflexivity.
 Qed.
+
+(* the function the extracted oracle runs is the [run] of the theorems *)
+Lemma run_trace_ok : forall o pcl ops r acc rets r',
+  run_trace o pcl r ops acc = (rets, r', 0%nat) -> run o pcl r ops = Ok r'.
+Proof.
+  intros o pcl ops. induction ops as [|x t IH]; intros r acc rets r' H; simpl in *.
+  - injection H as _ <-. reflexivity.
+  - destruct (step o pcl r x) as [[r1 rv]| |]; try (injection H as _ _ H; discriminate).
+    eapply IH. exact H.
+Qed.
